@@ -16,6 +16,8 @@ func main() {
 		configMain(args)
 	case "C15":
 		termMain(args)
+	case "C01", "C12", "C13":
+		blastMain(args, args.Prop)
 	default:
 		fmt.Println("HARNESS-ERROR e2e: unknown property", args.Prop)
 		os.Exit(mon.ExitHarness)
